@@ -21,7 +21,9 @@ def long_vectors(path, seed, n, maxlen):
             while len(d) < ln:
                 d += [rnd.randrange(256)] * rnd.randint(1, 40)
             d = d[:ln]
-        evs.append({"data": d, "early": k % 2, "clr": 0 if k % 4 else 97})
+        # clr: a Clear code after every clr-th code.  97 keeps the width at 9 bits; 300 and 1100 put the Clear where the
+        # width is already 10 / 12 bits (the decoder must fall back to 9 bits for the very next code)
+        evs.append({"data": d, "early": k % 2, "clr": (300, 97, 1100, 0)[k % 4]})
     vlib.write_ndjson(path, evs)
 
 
